@@ -22,6 +22,8 @@ pub fn group(name: &str) -> Group {
 	match name {
 		"route" => Group { name: "route", ops: vec![("a", "call", 1), ("b", "call", 1), ("c", "call", 1), ("d", "sub", 1)], max_queue: 2, buf_cap: 2 },
 		"stream" => Group { name: "stream", ops: vec![("a", "sub", 1), ("b", "sub", 1), ("c", "call", 1)], max_queue: 2, buf_cap: 1 },
+		// a client configured with max_concurrent_requests = 1: the front->back queue is full as soon as one message waits
+		"tight" => Group { name: "tight", ops: vec![("a", "sub", 1), ("b", "sub", 1), ("c", "call", 1), ("d", "call", 1)], max_queue: 1, buf_cap: 1 },
 		"batch" => Group { name: "batch", ops: vec![("a", "batch", 3), ("b", "batch", 2), ("c", "call", 1)], max_queue: 4, buf_cap: 1 },
 		"faulty" => Group { name: "faulty", ops: vec![("a", "call", 1), ("b", "sub", 1), ("c", "batch", 2), ("d", "call", 1)], max_queue: 2, buf_cap: 1 },
 		_ => Group { name: "mixed", ops: vec![("a", "call", 1), ("b", "sub", 1), ("c", "batch", 2), ("d", "sub", 1)], max_queue: 3, buf_cap: 2 },
@@ -176,7 +178,7 @@ async fn scenario(g: &Group, rng: &mut StdRng, sc: usize, panics: &Arc<parking_l
 	let mut npeer = 0;
 	let menu_weighted: Vec<&str> = match g.name {
 		"route" => vec!["resp", "resp", "resp", "resp", "notif", "mnotif"],
-		"stream" => vec!["resp", "notif", "notif", "notif", "close", "mnotif"],
+		"stream" | "tight" => vec!["resp", "notif", "notif", "notif", "close", "mnotif"],
 		"batch" => vec!["resp"],
 		_ => vec!["resp", "resp", "notif", "notif", "close", "mnotif"],
 	};
@@ -314,9 +316,13 @@ async fn scenario(g: &Group, rng: &mut StdRng, sc: usize, panics: &Arc<parking_l
 					let _ = rig.peer_tx.send(PeerItem::Fail("peerClose".into()));
 				}
 			}
+		} else if roll < 93 {
+			// back-pressure on the transport: the send task stays inside `send().await`, the front->back queue fills up
+			let now = !rig.faults.hold.load(std::sync::atomic::Ordering::SeqCst);
+			rig.faults.hold.store(now, std::sync::atomic::Ordering::SeqCst);
+			tracer.ev(json!({"ev": if now { "Hold" } else { "Release" }}));
 		} else if roll < 96 {
-			settle(60).await;
-			sizes(&rig, &tracer);
+			quiet(&rig, &tracer).await;
 		} else {
 			tracer.ev(json!({"ev": "Connected", "b": rig.client.is_connected()}));
 		}
@@ -328,8 +334,7 @@ async fn scenario(g: &Group, rng: &mut StdRng, sc: usize, panics: &Arc<parking_l
 
 async fn wind_down(rig: &Rig, tracer: &Tracer, tasks: Vec<tokio::task::JoinHandle<()>>, slots: &BTreeMap<String, SubSlot>, panics: &Arc<parking_lot::Mutex<Vec<String>>>) {
 	// ---- wind down: let everything run, look at the tables, then end the connection if anything is still open
-	settle(80).await;
-	sizes(rig, tracer);
+	quiet(rig, tracer).await;
 	if rig.client.is_connected() {
 		// (an armed send fault that never fired leaves the connection up: end it from the peer's side)
 		tracer.ev(json!({"ev": "Fault", "f": "peerClose"}));
@@ -519,6 +524,14 @@ async fn scripted(g: &Group, rng: &mut StdRng, sc: usize, script: &Value, panics
 				faulted = true;
 				inject(step["f"].as_str().unwrap(), &rig, &tracer);
 			}
+			"hold" => {
+				rig.faults.hold.store(true, std::sync::atomic::Ordering::SeqCst);
+				tracer.ev(json!({"ev": "Hold"}));
+			}
+			"release" => {
+				rig.faults.hold.store(false, std::sync::atomic::Ordering::SeqCst);
+				tracer.ev(json!({"ev": "Release"}));
+			}
 			_ => {}
 		}
 		match pace {
@@ -526,13 +539,26 @@ async fn scripted(g: &Group, rng: &mut StdRng, sc: usize, script: &Value, panics
 			1 => settle(rng.random_range(0..12)).await,
 			_ => settle(40).await,
 		}
-		if rng.random_range(0..12) == 0 {
-			settle(60).await;
-			sizes(&rig, &tracer);
+		if rng.random_range(0..12) == 0 && !rig.faults.hold.load(std::sync::atomic::Ordering::SeqCst) {
+			quiet(&rig, &tracer).await;
 		}
 	}
 	wind_down(&rig, &tracer, tasks, &slots, panics).await;
 	tracer.take()
+}
+
+/// Let the client run until it has nothing left to do (current_thread runtime, in-memory transport, no timers involved: after
+/// this many scheduler turns every task is parked), then look at it.  The trace spec demands at `Quiet` that the model has
+/// no enabled step of the client left either - which is how "eventually" obligations (an unsubscribe is sent, a noticed
+/// fault shuts the client down) are checked on a finite trace.
+async fn quiet(rig: &Rig, tracer: &Tracer) {
+	if rig.faults.hold.swap(false, std::sync::atomic::Ordering::SeqCst) {
+		tracer.ev(json!({"ev": "Release"}));
+	}
+	settle(120).await;
+	tracer.ev(json!({"ev": "Quiet"}));
+	tracer.ev(json!({"ev": "Connected", "b": rig.client.is_connected()}));
+	sizes(rig, tracer);
 }
 
 fn sizes(rig: &Rig, tracer: &Tracer) {
